@@ -27,6 +27,8 @@ pub struct Dft<T> {
 impl<T: FftNum> Dft<T> {
     /// Preallocates necessary arrays and precomputes necessary data to efficiently compute Dft
     pub fn new(len: usize, direction: FftDirection) -> Self {
+        #[cfg(rustfft_verif)]
+        crate::verif_hooks::note_dft(len);
         let twiddles = (0..len)
             .map(|i| twiddles::compute_twiddle(i, len, direction))
             .collect();
